@@ -48,7 +48,7 @@ pub fn flat_world(rng: &mut Rng, nt: usize, ncmd: usize, max_retained: usize, un
         }
         targets.push(TargetSpec { path, ..Default::default() });
     }
-    WorldSpec { targets, cmd_files, files: vec![], sequences: vec![], max_retained_runs: max_retained, gitignore: vec![], git, lock_host: None, default_ports: 0, omit_max_retained: false, sha256_repo: false }
+    WorldSpec { targets, cmd_files, files: vec![], sequences: vec![], max_retained_runs: max_retained, gitignore: vec![], git, lock_host: None, default_ports: 0, omit_max_retained: false, sha256_repo: false, clock_plan: vec![] }
 }
 
 /// A run step over a flat world: explicit targets (or all), a subset of commands, serial-tagged output.
@@ -202,7 +202,7 @@ fn gen_c12_huge(rng: &mut Rng) -> C12Scenario {
         targets.push(TargetSpec { path, ..Default::default() });
     }
     let seq: Vec<String> = (0..165).map(|i| format!("c{:03}", i)).collect();
-    let spec = WorldSpec { targets, cmd_files, files: vec![], sequences: vec![("big".into(), seq)], max_retained_runs: 2, gitignore: vec![], git: false, lock_host: None, default_ports: 0, omit_max_retained: false, sha256_repo: false };
+    let spec = WorldSpec { targets, cmd_files, files: vec![], sequences: vec![("big".into(), seq)], max_retained_runs: 2, gitignore: vec![], git: false, lock_host: None, default_ports: 0, omit_max_retained: false, sha256_repo: false, clock_plan: vec![] };
     let small = |serial: usize, spec: &WorldSpec| {
         let t = spec.targets[serial % 5].path.clone();
         RunStep {
@@ -284,6 +284,12 @@ fn gen_c12(seed: u64, idx: usize, tier: Tier) -> C12Scenario {
     } else {
         None
     };
+    {
+        let mut crng = Rng::new(scenario_seed(seed, "C12-clock", idx));
+        if crng.chance(1, 3) {
+            spec.clock_plan = crate::world::gen_clock_plan(&mut crng);
+        }
+    }
     C12Scenario { spec, runs, rand_seed, checkpointed, unlink_delay_us, relimit }
 }
 
@@ -608,7 +614,15 @@ fn gen_c13(seed: u64, idx: usize, tier: Tier) -> C13Scenario {
     let max = if relimit { *rng.pick(&[3usize, 5, 8, 2]) } else { *rng.pick(&[2usize, 2, 3, 5]) };
     let nt = rng.range(1, 3);
     let ncmd = rng.range(1, 2);
-    let spec = flat_world(&mut rng, nt, ncmd, max, 0, true);
+    let mut spec = flat_world(&mut rng, nt, ncmd, max, 0, true);
+    {
+        // one history in three: every invocation (earlier runs, the killed run, the reads, the next run) under
+        // another wrong or jumping wall clock (own generator: existing seeds keep their histories)
+        let mut crng = Rng::new(scenario_seed(seed, "C13-clock", idx));
+        if crng.chance(1, 3) {
+            spec.clock_plan = crate::world::gen_clock_plan(&mut crng);
+        }
+    }
     let np = if relimit { rng.range(1, max.min(6)) } else { rng.below(4) };
     let prefix = (1..=np).map(|i| gen_step(&mut rng, &spec, i, true, ncmd)).collect();
     let crash_run = gen_step(&mut rng, &spec, 90, true, ncmd);
